@@ -85,6 +85,30 @@ def check(run: Run, prog: Program, model: Model, tier: str) -> None:
             else:
                 run.violated("SEP-THREAD", c, loc, f"{ast.unparse(r)}.join(...) re-joins the tail with something else than the separator",
                              witness="rollout({'a/b/c': 1}, separator='/') yields key 'b.c' at depth 2")
+    # partition()-based splitting: "separator found" must be decided on the MIDDLE element; an empty tail is legal
+    for n in ast.walk(fn):
+        if isinstance(n, ast.Assign) and isinstance(n.value, ast.Call) and isinstance(n.value.func, ast.Attribute) \
+                and n.value.func.attr in ("partition", "rpartition") and isinstance(n.targets[0], ast.Tuple) and len(n.targets[0].elts) == 3:
+            a0 = n.value.args[0] if n.value.args else None
+            n_split += 1
+            loc = f"{f.module.path}:{n.lineno}"
+            c = f"rollout: {n.value.func.attr} #{n_split}"
+            if not (isinstance(a0, ast.Name) and a0.id == sep):
+                run.violated("SEP-THREAD", c, loc, "partitions on something else than the separator parameter", witness="rollout({'a/b': 1}, separator='/')")
+                continue
+            run.holds("SEP-THREAD", c, loc, f".{n.value.func.attr}({sep})", nontrivial=False)
+            head_, mid_, tail_ = [e.id if isinstance(e, ast.Name) else None for e in n.targets[0].elts]
+            for t in ast.walk(fn):
+                if isinstance(t, ast.If) and (names(t.test) & {x for x in (head_, mid_, tail_) if x}) and t.lineno > n.lineno:
+                    used = names(t.test)
+                    c2 = f"rollout: leaf-or-group decision after {n.value.func.attr}"
+                    if tail_ in used and mid_ not in used:
+                        run.violated("SEP-THREAD", c2, f"{f.module.path}:{t.lineno}",
+                                     "`no separator found` is decided on the (possibly empty) tail instead of the separator element",
+                                     witness="rollout({'a.': 1}) yields {'a': 1} instead of {'a': {'': 1}}")
+                    elif mid_ in used:
+                        run.holds("SEP-THREAD", c2, f"{f.module.path}:{t.lineno}", "decided on the separator element", nontrivial=True)
+                    break
     # find()/index() based splitting: the tail must start len(separator) after the hit
     pos_names: Set[str] = set()
     for n in ast.walk(fn):
@@ -119,7 +143,7 @@ def check(run: Run, prog: Program, model: Model, tier: str) -> None:
                              witness="rollout({'a__b': 1}, separator='__') yields {'a': {'_b': 1}}")
             else:
                 run.undecided("SEP-THREAD", c, loc, f"tail offset `{ast.unparse(lo)}` not recognised")
-    run.floor("SEP-THREAD", 3)
+    run.floor("SEP-THREAD", 2)
 
     # ---------------------------------------------------------------- stores
     loop = None
@@ -272,4 +296,13 @@ MUTANTS += [
     {"name": "neutral: find()-based split with len(separator)", "expect": "SILENT",
      "edits": [(U, "        parts = comp_key.split(separator)\n        key = parts[0]\n        if len(parts) == 1:\n            updated[optional(key) if is_optional else key] = val\n        else:\n            if key not in updated:\n                updated[key] = {}\n            tail = separator.join(parts[1:])\n",
                 "        pos = comp_key.find(separator)\n        if pos == -1:\n            updated[optional(comp_key) if is_optional else comp_key] = val\n        else:\n            key, tail = comp_key[:pos], comp_key[pos + len(separator):]\n            if key not in updated:\n                updated[key] = {}\n")]},
+]
+
+MUTANTS += [
+    {"name": "partition() with the leaf test on the tail", "rule": "SEP-THREAD",
+     "edits": [(U, "        parts = comp_key.split(separator)\n        key = parts[0]\n        if len(parts) == 1:\n            updated[optional(key) if is_optional else key] = val\n        else:\n            if key not in updated:\n                updated[key] = {}\n            tail = separator.join(parts[1:])\n",
+                "        key, _, tail = comp_key.partition(separator)\n        if not tail:\n            updated[optional(key) if is_optional else key] = val\n        else:\n            if key not in updated:\n                updated[key] = {}\n")]},
+    {"name": "neutral: partition() with the leaf test on the separator element", "expect": "SILENT",
+     "edits": [(U, "        parts = comp_key.split(separator)\n        key = parts[0]\n        if len(parts) == 1:\n            updated[optional(key) if is_optional else key] = val\n        else:\n            if key not in updated:\n                updated[key] = {}\n            tail = separator.join(parts[1:])\n",
+                "        key, found, tail = comp_key.partition(separator)\n        if not found:\n            updated[optional(key) if is_optional else key] = val\n        else:\n            if key not in updated:\n                updated[key] = {}\n")]},
 ]
